@@ -157,7 +157,8 @@ class SDVRPEnv(CVRPEnv):
             used_cap[a == 0] = 0
             a_prev = a
         # column 0 is the depot's reset entry (-capacity until the depot is visited), not a demand
-        assert (demands[:, 1:] == 0).all(), "All demand must be satisfied"
+        # (deliveries that fill the vehicle exactly leave float32 residues of ~1e-8)
+        assert (demands[:, 1:].abs() <= 1e-5).all(), "All demand must be satisfied"
 
     def _make_spec(self, generator):
         """Make the observation and action specs from the parameters."""
